@@ -101,6 +101,44 @@ def _parents(n):
         p = getattr(p, '_parent', None)
 
 
+# reviewed sites at which a KMIP error text is the text of a foreign exception: (function, calls in the try body) -> why the text is never empty
+T_FOREIGN_TEXT = {
+    ('CryptographyEngine.wrap_key', ('keywrap.aes_key_wrap',)): 'cryptography.hazmat.primitives.keywrap raises ValueError with literal, non-empty messages only',
+}
+
+
+def check_failure_messages_nonempty(ctx, rule='C02.R9'):
+    """A failed item needs a Result Message; _process_batch wraps the message only when it is truthy, so no KMIP error text may be empty."""
+    from ..astutil import all_functions
+    ctx.rule(rule, 'every KMIP error raised in the engine or the crypto engine carries a text that cannot be empty - a literal (possibly formatted) - or, where the text is taken from a caught foreign exception (str(e)), the site is in the reviewed table: _process_batch wraps reason and message only when they are truthy, so an empty text would leave a failed item without a well-formed Result Message (cryptography raises InvalidTag / InvalidSignature with empty text)')
+    n = 0
+    for rel in ('kmip/services/server/engine.py', 'kmip/services/server/crypto/engine.py'):
+        t = ctx.src.tree(rel)
+        for qn, fn, cls in all_functions(t):
+            for tr in [x for x in walk_local(fn) if isinstance(x, ast.Try)]:
+                for h in tr.handlers:
+                    if not h.name:
+                        continue
+                    for r in [x for st in h.body for x in ast.walk(st) if isinstance(x, ast.Raise) and isinstance(x.exc, ast.Call) and (call_name(x.exc) or '').startswith('exceptions.')]:
+                        args = list(r.exc.args) + [k.value for k in r.exc.keywords]
+                        derived = [a for a in args if any(isinstance(y, ast.Name) and y.id == h.name for y in ast.walk(a))]
+                        if not derived:
+                            continue
+                        # a literal prefix/suffix makes the text non-empty: "...{}".format(e), "..." + str(e), "...%s" % e
+                        lit = any(isinstance(y, ast.Constant) and isinstance(y.value, str) and y.value.strip() for a in derived for y in ast.walk(a))
+                        n += 1
+                        callees = tuple(sorted(set(call_name(c) for st in tr.body for c in ast.walk(st) if isinstance(c, ast.Call) and call_name(c) and '.' in call_name(c) and not call_name(c).startswith('self.logger'))))
+                        key = (qn, callees)
+                        site = '%s:%s %s' % (rel, r.lineno, qn)
+                        if lit:
+                            ctx.ok(rule, site, 'foreign exception text embedded in a literal')
+                        else:
+                            why = T_FOREIGN_TEXT.get(key)
+                            ctx.check(why is not None, rule, '%s|message = text of the caught %s' % (qn, dotted(h.type) or 'exception'), site, 'reviewed: %s' % why,
+                                      'the error text is exactly the text of the caught exception (calls in the try body: %s), which is not in the reviewed table; exceptions such as cryptography.exceptions.InvalidTag have an empty text, and a failed item with an empty message is emitted without a Result Message structure (its encoding fails)' % list(callees))
+    ctx.count('foreign_exception_text_sites', n, 1)
+
+
 def run(ctx):
     src = ctx.src
     for rid, text in (
@@ -375,3 +413,4 @@ def run(ctx):
         ctx.fail('C02.R8', f.key, f.site, f.message)
     if not lifted:
         ctx.ok('C02.R8', PRIM, 'padding counts are within 0..7 for all residues in constructor and reader of both classes')
+    check_failure_messages_nonempty(ctx, 'C02.R9')
